@@ -292,8 +292,10 @@ func EvalParse(s []byte) (p PObs) {
 	p.Mat = le8(ps.Maturity())
 	p.OwnBytes = ints(ps.StdScriptAddress())
 	p.Own = Decode(ps.StdEncodeAddress())
-	if !isNil(ps.SecondAddress()) {
-		p.SecPresent = true
+	// the wallet's callers print the second address of every staking / binding reading without looking
+	// at it first (filterTx, GetBindingHistory, the API): a reading that cannot do that is a crash
+	if p.IsStk || p.IsBind || !isNil(ps.SecondAddress()) {
+		p.SecPresent = !isNil(ps.SecondAddress())
 		p.SecBytes = ints(ps.SecondScriptAddress())
 		p.Sec = Decode(ps.SecondEncodeAddress())
 	}
